@@ -619,7 +619,8 @@ def nil_facts(st, s, legacy):
     seq_facts(st, s)
     for f, okf in ((enc_items, items_ok), (enc_entries, entries_ok)):
         c = st.new_chunk(term=f(s, lg))
-        st.assume(z3.Implies(seq_nil(s), z3.And(c.len == 0, okf(s, lg))))
+        st.assume(z3.And(z3.Implies(seq_nil(s), z3.And(c.len == 0, okf(s, lg))),
+                         z3.Implies(z3.Not(seq_nil(s)), c.len >= 1)))     # every value / entry has at least its tag octet
 
 
 ENC_ARRAY_UNFOLD = 'enc_array(l) == be4(len X) ++ X with X == enc_items(list_items(l)); array_encodable(l) == items_ok(...) and len X < 2^32'
@@ -684,13 +685,31 @@ def mk_decimal(unscaled, scale):
     return sym.SOpaque('decimal', decimal_of(sym.I(unscaled), sym.I(scale)))
 
 
-def decimal_ok(t):
-    return z3.And(dec_finite(t), dec_scale(t) >= 0, dec_scale(t) <= 255,
-                  dec_unscaled(t) >= -2 ** 31, dec_unscaled(t) <= 2 ** 31 - 1)
+def dec_parts(v):
+    """(finite, scale, unscaled) of a decimal: value == unscaled / 10^scale exactly, scale >= 0."""
+    import decimal
+    if isinstance(v, decimal.Decimal):
+        if not v.is_finite():
+            return False, 0, 0
+        sign, digits, exp = v.as_tuple()
+        n = int(''.join(map(str, digits)) or '0') * (-1 if sign else 1)
+        if exp >= 0:
+            return True, 0, n * 10 ** exp
+        return True, -exp, n
+    return dec_finite(v.t), SInt(dec_scale(v.t)), SInt(dec_unscaled(v.t))
+
+
+def decimal_ok(v):
+    from pyvc.dsl import conj, in_range
+    if isinstance(v, z3.ExprRef):          # a raw Obj term
+        v = sym.SOpaque('decimal', v)
+    fin, scale, unscaled = dec_parts(v)
+    return conj(fin, in_range(scale, 0, 255), in_range(unscaled, -2 ** 31, 2 ** 31 - 1))
 
 
 def decimal_bytes(st, v):
-    return cat(st, be(st, 1, SInt(dec_scale(v.t))), sbe(st, 4, SInt(dec_unscaled(v.t))))
+    fin, scale, unscaled = dec_parts(v)
+    return cat(st, be(st, 1, scale), sbe(st, 4, unscaled))
 
 
 # ---------------------------------------------------------------- reference decoder for field values (19 type tags)
